@@ -52,18 +52,26 @@ func readerForwardsAll(a *A, rule string, r *Roles) {
 	} else if bad == 0 {
 		a.hold(rule, "one-packet@decoder", w.pos(r.ReadEvent.Pos()), "one ReadPacket per call of the decoder, outside any loop")
 	}
-	// (b)
+	// (b) - in whichever function of the reader goroutine calls the decoder (the loop itself, or a "read one and forward it"
+	// step function the loop calls)
 	var readCall *ssa.Call
-	instrs(r.Reader, func(in ssa.Instruction) {
-		if c, ok := in.(*ssa.Call); ok && c.Common().StaticCallee() == r.ReadEvent {
-			readCall = c
+	var home *ssa.Function
+	for f := range reachableInPkg([]*ssa.Function{r.Reader}, w.Root) {
+		if f == r.ReadEvent {
+			continue
 		}
-	})
+		instrs(f, func(in ssa.Instruction) {
+			if c, ok := in.(*ssa.Call); ok && c.Common().StaticCallee() == r.ReadEvent {
+				readCall, home = c, f
+			}
+		})
+	}
 	if !a.need(readCall != nil, rule, "call of the packet decoder in the reader") {
 		return
 	}
-	// the hand-off: a select (or send) whose sent value is the decoder's event
-	isHandOff := func(b *ssa.BasicBlock) bool {
+	a.touch(home)
+	// the hand-off: a select (or send) on the event channel, directly or inside an in-package function that is given the event
+	direct := func(b *ssa.BasicBlock) bool {
 		for _, in := range b.Instrs {
 			switch x := in.(type) {
 			case *ssa.Select:
@@ -80,6 +88,51 @@ func readerForwardsAll(a *A, rule string, r *Roles) {
 		}
 		return false
 	}
+	memo := map[*ssa.Function]bool{}
+	var sends func(f *ssa.Function, d int) bool
+	sends = func(f *ssa.Function, d int) bool {
+		if v, ok := memo[f]; ok {
+			return v
+		}
+		memo[f] = false
+		if f == nil || f.Blocks == nil || d > 4 || enclosingPkg(f) != w.Root {
+			return false
+		}
+		for _, b := range f.Blocks {
+			if direct(b) {
+				memo[f] = true
+				return true
+			}
+			for _, in := range b.Instrs {
+				if c, ok := in.(*ssa.Call); ok {
+					if cal := c.Common().StaticCallee(); cal != nil && cal != f && sends(cal, d+1) {
+						memo[f] = true
+						return true
+					}
+				}
+			}
+		}
+		return false
+	}
+	isHandOff := func(b *ssa.BasicBlock) bool {
+		if direct(b) {
+			return true
+		}
+		for _, in := range b.Instrs {
+			if c, ok := in.(*ssa.Call); ok {
+				cal := c.Common().StaticCallee()
+				if cal == nil || cal == r.ReadEvent || !sends(cal, 0) {
+					continue
+				}
+				for _, arg := range c.Common().Args {
+					if namedIs(arg.Type(), replPath, "BinlogEvent") {
+						return true
+					}
+				}
+			}
+		}
+		return false
+	}
 	// success edges: tests of the decoder's error result
 	var errV ssa.Value
 	for _, ref := range *readCall.Referrers() {
@@ -91,7 +144,7 @@ func readerForwardsAll(a *A, rule string, r *Roles) {
 		return
 	}
 	n := 0
-	for _, b := range r.Reader.Blocks {
+	for _, b := range home.Blocks {
 		iff, ok := lastInstr(b).(*ssa.If)
 		if !ok {
 			continue
@@ -106,9 +159,19 @@ func readerForwardsAll(a *A, rule string, r *Roles) {
 		}
 		n++
 		from := b.Succs[k]
-		skip := !isHandOff(from) && reachesAvoiding(from, readCall.Block(), isHandOff, nil)
-		if from == readCall.Block() {
-			skip = true
+		// ... back to the next read, or out of the step function (whose caller reads next), without a hand-off
+		skip := false
+		if !isHandOff(from) {
+			if from == readCall.Block() || reachesAvoiding(from, readCall.Block(), isHandOff, nil) {
+				skip = true
+			}
+			if home != r.Reader {
+				for _, ret := range returnsOf(home) {
+					if from == ret.Block() || reachesAvoiding(from, ret.Block(), isHandOff, nil) {
+						skip = true
+					}
+				}
+			}
 		}
 		a.check(!skip, rule, fmt.Sprintf("hand-off@reader#%d", n), w.posOf(iff), "every event read is handed to the parser before the next read",
 			"the reader can go on to the next packet without handing the event it just read to the parser (a filter between read and hand-off): transactions are lost without an error, and the kept position moves past them")
